@@ -346,7 +346,7 @@ func (g *pwGen) unauthorisedPush(ref string, i int) int {
 func (g *pwGen) generate() {
 	r := g.r
 	g.lastOp = map[string]int{}
-	g.refs = []string{mainRef, mainRef, relRef, openRef}
+	g.refs = []string{mainRef, mainRef, mainRef, relRef, relRef, openRef, openRef, main2Ref}
 	g.pol = g.initialPolicy()
 	g.b.add(world.Op{Kind: "stage", Actor: 0, Policy: g.pol})
 	policyOps := []int{g.b.add(world.Op{Kind: "apply", Actor: 0})}
